@@ -351,6 +351,13 @@ pub fn c13(run: &mut Run) {
                         return Err((json!({"index": idx, "f": fs[v].0, "x": x}), format!("custom easing not used as given: {route}.calc({x}) = {got} but f.calc({x}) = {want} (f = {})", fs[v].0)));
                     }
                 }
+                // ... and a DIFFERENT custom easing asked at the same x right afterwards gets its own answer
+                // (nothing may be remembered per "kind of easing")
+                let o = (v + 1) % 4;
+                let (got_o, want_o) = (wrapped[o].calc(x), fs[o].1.calc(x));
+                if got_o.to_bits() != want_o.to_bits() {
+                    return Err((json!({"index": idx, "f": fs[o].0, "after": fs[v].0, "x": x}), format!("custom easing not used as given: Easing::Custom(f).calc({x}) = {got_o} but f.calc({x}) = {want_o} (f = {}, asked right after the custom easing {})", fs[o].0, fs[v].0)));
+                }
                 eo.evaluated += 1;
                 if want != x {
                     eo.nontrivial += 1;
